@@ -10,7 +10,8 @@
     * `objs`  : the content each live object carries *now* (a step may replace it: built afresh by
                 whatever construction path, changed by assignment / `model_copy(update=…)`, loaded),
     * `files` : the document each file holds (the file-system cell: a successful save replaces the
-                whole content, whatever the file held before; a failing save does not touch it).
+                whole content, whatever the file held before; a failing save does not touch it); an
+                in-memory document object (`to_aeof`'s result, a parsed file) is such a cell too.
 
   Only this is modelled of the file system: whole-file replacement on success, nothing on failure,
   reads do not write.
@@ -44,6 +45,11 @@ inductive Step
   | save (k file : String) (dir : Option PPath)
   /-- `objs[into] = load(file, audio_dir=dir)` -/
   | load (file : String) (dir : Option PPath) (into : String)
+  /-- the document held by the cell `src` is put into the cell `dst` as it is: an in-memory document
+      written out (`write_text(doc.model_dump_json())`), a file parsed into an in-memory document
+      (`AOEFObject.model_validate_json(text)`).  In-memory documents are cells like files: `to_aeof` is a
+      save to such a cell, `to_soundevent` a load from it -/
+  | copy (src dst : String)
   /-- something the model does not see (a returned object changed in place by the caller) -/
   | skip
   deriving Inhabited
@@ -89,6 +95,10 @@ def step (s : State) : Step → State × Out
       match Aoef.load d dir with
       | .ok c => ({ s with objs := put s.objs into c }, .recs (recPaths c))
       | .error e => (s, .fail e)
+  | .copy src dst =>
+    match get s.files src with
+    | none => (s, .missing)
+    | some d => ({ s with files := put s.files dst d }, .stored (storedOf d))
   | .skip => (s, .nothing)
 
 /-- the outputs of a whole session -/
@@ -97,9 +107,10 @@ def run (s : State) (steps : List Step) : List Out := History.runS step s steps
 /-- the state a session ends in -/
 def after (s : State) (steps : List Step) : State := History.stateAfter step s steps
 
-/-- the step is a save to the file `f` -/
+/-- the step writes to the cell `f` (a save to it, or a copy into it) -/
 def Step.savesTo (f : String) : Step → Bool
   | .save _ g _ => g == f
+  | .copy _ g => g == f
   | _ => false
 
 end SE.Aoef.Session
